@@ -18,6 +18,7 @@ import (
 	"testing"
 	"time"
 
+	"go.minekube.com/gate/pkg/edition/java/config"
 	"go.minekube.com/gate/pkg/edition/java/proto/version"
 
 	"verif/harness/mcwire"
@@ -178,7 +179,9 @@ func TestReplay(t *testing.T) {
 		t.Fatal(err)
 	}
 	defer be.Close()
-	r, err := rig.New(rig.Options{Backends: map[string]*rig.Backend{"lobby": be}, Try: []string{"lobby"}})
+	// a valid but unusual status configuration: fewer "max players" shown than players online
+	r, err := rig.New(rig.Options{Backends: map[string]*rig.Backend{"lobby": be}, Try: []string{"lobby"},
+		Mutate: func(c *config.Config) { c.Status.ShowMaxPlayers = 1 }})
 	if err != nil {
 		t.Fatal(err)
 	}
